@@ -40,9 +40,9 @@ CHECKS = {
     text="Bounded stand-in only: exhaustive over all labelled graphs with at most 6 vertices, plus tie-heavy families and seeded random graphs with pendant trees; nothing is proved.",
     note="greedy_fvs uses a Boost pairing heap with handles and std::map priorities; neither CBMC route parses it."),
  "C14": dict(
-    engine="E3", category="exploration", design_ref="DESIGN.md 4/C14, 3 (K14)",
-    technique="bounded enforcement of the collection contracts (soundness of each candidate, nesting, sufficiency by greedy GF(2) selection against the brute-force optimum); no deductive content",
-    text="Bounded stand-in only: all labelled graphs n<=6 (unit + seeded weights), all weightings n<=3/4, tie-heavy families, seeded random graphs.",
+    engine="E1+E3", category="other", design_ref="DESIGN.md 4/C14, 3 (K14)",
+    technique="CBMC DFCC loop contracts on the extracted SPTree::create_candidate_cycles (emission iff-condition, recorded weight) + bounded enforcement of the collection contracts (soundness of each candidate, nesting, sufficiency by greedy GF(2) selection against the brute-force optimum)",
+    text="create_candidate_cycles proved against the tree tables (small caps); soundness of whole collections, nesting and sufficiency are a bounded stand-in: all labelled graphs n<=6 (unit + seeded weights), all weightings n<=3/4, tie-heavy families, seeded random graphs.",
     note="Exact-domain weights only; builders are Boost.Graph templates outside CBMC's reach."),
  "C16": dict(
     engine="E1+E3", category="other", design_ref="DESIGN.md 4/C16, 3 (K15,K15a)",
